@@ -240,6 +240,13 @@ def _job(job) -> List[Dict[str, Any]]:
                         calls: set = set()
                         _calls_in(got, calls)
                         foreign = sorted(x for x in calls if x not in KNOWN_CALLS)
+                        wcalls: set = set()
+                        _calls_in(wp, wcalls)
+                        missing = sorted(x for x in wcalls - calls if x in ("fn:v", "fn:w", "fn:vt", "fn:wt"))
+                        if missing and not foreign:
+                            # the code computes a Gaussian correction in line (its own branches) where the transcription has the
+                            # uninterpreted function: not comparable
+                            foreign = [f"in-line form of {m_}" for m_ in missing]
                         if foreign:
                             if verdict == "HOLDS":
                                 verdict, msg = "UNDECIDED", (f"the code's term for the {name} of player {who[1]} of team {who[0]} is built from functions the comparison does not know ({foreign}): "
